@@ -156,118 +156,134 @@ func c18Select(p *an.Prog, r *an.R) {
 	}})
 	r.Check(!skip, "C18.R3", "search.doSelectRepoSet/shard-loop/dropped-only-when-no-repository-matches", shardLoop.Pos(), "a shard is left out only when `any` is false", "a shard can be left out of the selection although the repository predicate was not found false for all of its repositories: its results are lost")
 	// the arguments of hasRepos: the shard's repositories
-	// R1, R4
-	nStore := 0
-	for _, l := range g.Locs(func(ast.Node) bool { return true }) {
-		as, ok := g.Node(l).(*ast.AssignStmt)
-		if !ok || len(as.Lhs) != 1 {
-			continue
+	// R1: every return that hands back a query other than the unmodified parameter is under filteredAll
+	allFact := func(cond ast.Expr, truth bool) bool {
+		if isIdentOf(info, cond, filteredAll) {
+			return truth
 		}
-		ix, ok := ast.Unparen(as.Lhs[0]).(*ast.IndexExpr)
+		if u, ok := ast.Unparen(cond).(*ast.UnaryExpr); ok && u.Op == token.NOT && isIdentOf(info, u.X, filteredAll) {
+			return !truth
+		}
+		return false
+	}
+	killAll := func(k an.Loc) bool { return isAllUpdate(k) || isAppend(k) }
+	isMod := func(k an.Loc) bool {
+		as, ok := g.Node(k).(*ast.AssignStmt)
 		if !ok {
-			continue
-		}
-		se, ok := ast.Unparen(ix.X).(*ast.SelectorExpr)
-		if !ok || se.Sel.Name != "Children" {
-			continue
-		}
-		nStore++
-		key := "search.doSelectRepoSet/rewrite#" + itoa(nStore)
-		kill := func(k an.Loc) bool { return isAllUpdate(k) || isAppend(k) }
-		allKnown := g.GuardedBy(l, func(cond ast.Expr, truth bool) bool {
-			if isIdentOf(info, cond, filteredAll) {
-				return truth
-			}
-			if u, ok := ast.Unparen(cond).(*ast.UnaryExpr); ok && u.Op == token.NOT && isIdentOf(info, u.X, filteredAll) {
-				return !truth
-			}
 			return false
-		}, kill)
-		r.Check(allKnown, "C18.R1", key+"/only-when-all-selected-repositories-match", as.Pos(), "the filter is rewritten only under filteredAll", "the repository filter is rewritten although some selected shard may hold repositories that do not satisfy it (filteredAll not established): those repositories' files are returned")
-		// replaced by a constant true, or by a Branch
-		if ue, ok := ast.Unparen(as.Rhs[0]).(*ast.UnaryExpr); ok && ue.Op == token.AND {
-			if cl, ok := ue.X.(*ast.CompositeLit); ok {
-				tn := an.TypeName(info.TypeOf(cl))
-				switch {
-				case strings.HasSuffix(tn, "query.Const"):
-					val := ""
-					for _, e := range cl.Elts {
-						if kv, ok := e.(*ast.KeyValueExpr); ok && kv.Key.(*ast.Ident).Name == "Value" {
-							if tv := info.Types[kv.Value]; tv.Value != nil {
-								val = tv.Value.String()
-							}
-						}
-					}
-					r.Check(val == "true", "C18.R1", key+"/replaced-by-true", as.Pos(), "a satisfied filter is replaced by the constant true", "a repository filter that all selected repositories satisfy is replaced by something other than the constant true")
-				case strings.HasSuffix(tn, "query.Branch"):
-					var cVar types.Object
-					exact, pat := false, false
-					for _, e := range cl.Elts {
-						kv, ok := e.(*ast.KeyValueExpr)
-						if !ok {
-							continue
-						}
-						switch kv.Key.(*ast.Ident).Name {
-						case "Exact":
-							if tv := info.Types[kv.Value]; tv.Value != nil && tv.Value.String() == "true" {
-								exact = true
-							}
-						case "Pattern":
-							// c.List[0].Branch
-							if s1, ok := ast.Unparen(kv.Value).(*ast.SelectorExpr); ok && s1.Sel.Name == "Branch" {
-								if ix, ok := ast.Unparen(s1.X).(*ast.IndexExpr); ok {
-									if tv := info.Types[ix.Index]; tv.Value != nil && tv.Value.String() == "0" {
-										if s2, ok := ast.Unparen(ix.X).(*ast.SelectorExpr); ok && s2.Sel.Name == "List" {
-											if id, ok := ast.Unparen(s2.X).(*ast.Ident); ok {
-												cVar = info.ObjectOf(id)
-												pat = true
-											}
-										}
-									}
-								}
-							}
-						}
-					}
-					r.Check(exact && pat, "C18.R4", key+"/branch-filter-exact-and-from-the-single-entry", as.Pos(), "the replacement is Branch{Pattern: List[0].Branch, Exact: true}", "the branch filter that replaces a BranchesRepos filter is not the exact branch of its single entry: it selects documents of other branches")
-					single := cVar != nil && g.GuardedBy(l, func(cond ast.Expr, truth bool) bool {
-						be, ok := ast.Unparen(cond).(*ast.BinaryExpr)
-						if !ok {
-							return false
-						}
-						c, ok := ast.Unparen(be.X).(*ast.CallExpr)
-						if !ok || !an.IsBuiltin(info, c, "len") {
-							return false
-						}
-						s, ok := ast.Unparen(c.Args[0]).(*ast.SelectorExpr)
-						if !ok || s.Sel.Name != "List" || !isIdentOf(info, s.X, cVar) {
-							return false
-						}
-						tv := info.Types[be.Y]
-						if tv.Value == nil || tv.Value.String() != "1" {
-							return false
-						}
-						return (be.Op == token.NEQ && !truth) || (be.Op == token.EQL && truth)
-					}, nil)
-					r.Check(single, "C18.R4", key+"/only-for-a-single-branch-entry", as.Pos(), "the replacement happens only when len(List) == 1", "a BranchesRepos filter with several (branch, repositories) entries is replaced by the branch of its first entry: repositories of the other entries are searched on the wrong branch")
-				default:
-					r.Bad("C18.R1", key+"/unknown-replacement", as.Pos(), "the filter is replaced by a "+tn+", neither the constant true nor an exact branch filter")
+		}
+		for _, lh := range as.Lhs {
+			if isIdentOf(info, lh, and) {
+				return true
+			}
+			if ix, ok := ast.Unparen(lh).(*ast.IndexExpr); ok {
+				if se, ok := ast.Unparen(ix.X).(*ast.SelectorExpr); ok && se.Sel.Name == "Children" && isIdentOf(info, se.X, and) {
+					return true
 				}
 			}
 		}
-		nonEmpty := g.GuardedBy(l, func(cond ast.Expr, truth bool) bool {
+		return false
+	}
+	mods := g.Locs(func(ast.Node) bool { return true })
+	nStore := 0
+	for _, l := range g.Locs(func(nd ast.Node) bool { _, ok := nd.(*ast.ReturnStmt); return ok }) {
+		rs := g.Node(l).(*ast.ReturnStmt)
+		if len(rs.Results) != 2 {
+			continue
+		}
+		unchanged := isIdentOf(info, rs.Results[1], and)
+		if unchanged {
+			for _, m := range mods {
+				if isMod(m) && g.Reach(m, true, &an.Search{Target: func(k an.Loc) bool { return k == l }}) {
+					unchanged = false
+				}
+			}
+		}
+		if unchanged {
+			continue
+		}
+		nStore++
+		key := "search.doSelectRepoSet/rewritten-return#" + itoa(nStore)
+		r.Check(g.GuardedBy(l, allFact, killAll), "C18.R1", key+"/only-when-all-selected-repositories-match", rs.Pos(), "a rewritten query is returned only under filteredAll", "a query other than the caller's is returned although some selected shard may hold repositories that do not satisfy the filter (filteredAll not established): the rewritten filter lets those repositories' files through")
+	}
+	// the replacement nodes: constant true, or an exact branch filter for a single entry
+	nRepl := 0
+	ast.Inspect(d.Decl.Body, func(nd ast.Node) bool {
+		ue, ok := nd.(*ast.UnaryExpr)
+		if !ok || ue.Op != token.AND {
+			return true
+		}
+		cl, ok := ue.X.(*ast.CompositeLit)
+		if !ok {
+			return true
+		}
+		tn := an.TypeName(info.TypeOf(cl))
+		if !strings.HasSuffix(tn, "query.Const") && !strings.HasSuffix(tn, "query.Branch") {
+			return true
+		}
+		l, okL := g.Find(cl)
+		nRepl++
+		key := "search.doSelectRepoSet/replacement#" + itoa(nRepl)
+		if !okL {
+			r.Und("C18.R1", key, cl.Pos(), "replacement literal not in the CFG")
+			return true
+		}
+		r.Check(g.GuardedBy(l, allFact, killAll), "C18.R1", key+"/only-when-all-selected-repositories-match", cl.Pos(), "the replacement is built only under filteredAll", "a replacement for the repository filter is built although some selected shard may hold repositories that do not satisfy the filter (filteredAll not established)")
+		if strings.HasSuffix(tn, "query.Const") {
+			val := ""
+			if v := litField(cl, "Value"); v != nil {
+				if tv := info.Types[v]; tv.Value != nil {
+					val = tv.Value.String()
+				}
+			}
+			r.Check(val == "true", "C18.R1", key+"/replaced-by-true", cl.Pos(), "a satisfied filter is replaced by the constant true", "a repository filter that all selected repositories satisfy is replaced by something other than the constant true")
+			return true
+		}
+		var cVar types.Object
+		exact, pat := false, false
+		if v := litField(cl, "Exact"); v != nil {
+			if tv := info.Types[v]; tv.Value != nil && tv.Value.String() == "true" {
+				exact = true
+			}
+		}
+		if v := litField(cl, "Pattern"); v != nil {
+			if s1, ok := ast.Unparen(v).(*ast.SelectorExpr); ok && s1.Sel.Name == "Branch" {
+				if ix, ok := ast.Unparen(s1.X).(*ast.IndexExpr); ok {
+					if tv := info.Types[ix.Index]; tv.Value != nil && tv.Value.String() == "0" {
+						if s2, ok := ast.Unparen(ix.X).(*ast.SelectorExpr); ok && s2.Sel.Name == "List" {
+							if id, ok := ast.Unparen(s2.X).(*ast.Ident); ok {
+								cVar = info.ObjectOf(id)
+								pat = true
+							}
+						}
+					}
+				}
+			}
+		}
+		r.Check(exact && pat, "C18.R4", key+"/branch-filter-exact-and-from-the-single-entry", cl.Pos(), "the replacement is Branch{Pattern: List[0].Branch, Exact: true}", "the branch filter that replaces a BranchesRepos filter is not the exact branch of its single entry: it selects documents of other branches")
+		single := cVar != nil && g.GuardedBy(l, func(cond ast.Expr, truth bool) bool {
 			be, ok := ast.Unparen(cond).(*ast.BinaryExpr)
 			if !ok {
 				return false
 			}
 			c, ok := ast.Unparen(be.X).(*ast.CallExpr)
-			if !ok || !an.IsBuiltin(info, c, "len") || !isIdentOf(info, c.Args[0], filtered) {
+			if !ok || !an.IsBuiltin(info, c, "len") {
+				return false
+			}
+			s, ok := ast.Unparen(c.Args[0]).(*ast.SelectorExpr)
+			if !ok || s.Sel.Name != "List" || !isIdentOf(info, s.X, cVar) {
 				return false
 			}
 			tv := info.Types[be.Y]
-			return tv.Value != nil && tv.Value.String() == "0" && ((be.Op == token.EQL && !truth) || (be.Op == token.NEQ && truth) || (be.Op == token.GTR && truth))
+			if tv.Value == nil || tv.Value.String() != "1" {
+				return false
+			}
+			return (be.Op == token.NEQ && !truth) || (be.Op == token.EQL && truth)
 		}, nil)
-		_ = nonEmpty // an empty selection returns before; not required for correctness
-	}
+		r.Check(single, "C18.R4", key+"/only-for-a-single-branch-entry", cl.Pos(), "the replacement happens only when len(List) == 1", "a BranchesRepos filter with several (branch, repositories) entries is replaced by the branch of its first entry: repositories of the other entries are searched on the wrong branch")
+		return true
+	})
+	r.Floor("C18.R1.replacements", 2, nRepl)
 	r.Floor("C18.R1.rewrites", 2, nStore)
 	// R9: the callers take the shard list and the query together
 	r.Rule("C18.R9", "every caller of selectRepoSet/doSelectRepoSet takes both results (the rewritten query is only valid for the selected shards)")
